@@ -88,6 +88,8 @@ def judge_key(ctx, rng, curve, secret, light=False):
     pub = key.public_point
     pubkey = Key.from_encoded_key(key.public_key())
     other = Key.from_secret_exponent(gen_secret(rng, curve), curve)
+    while other.public_point == pub:        # edge secrets are drawn from a tiny pool: make sure it is a different key
+        other = Key.from_secret_exponent(gen_secret(rng, curve), curve)
     prefix = curve.decode() + 'sig'
     msgs = list(messages(rng))
     if light:
